@@ -501,3 +501,6 @@ PROPS["C19"]["trusted_base"] = PROPS["C19"].get("trusted_base", []) + ["EdsModel
 # tenth wave (C19-j): "unpause back to Canary" from the AUTO-paused state is decided inside manageCanaryStatus:
 # C19 runs the manage_canary stream and answers for the C08 / C06 clauses there (already adopted)
 PROPS["C19"]["streams"] = list(PROPS["C19"]["streams"]) + [("manage_canary", 2000, 30000)]
+
+# eleventh wave (C02-k): what a fault-free sync owes (creations of its proven plan) is judged on whole syncs
+PROPS["C02"]["streams"] = list(PROPS["C02"]["streams"]) + [("ers_reconcile", 4000, 30000)]
